@@ -40,7 +40,7 @@ func init() {
 			if tier == "thorough" {
 				out = append(out, Child{TimeoutS: pick(tier, 400, 3600), Flavour: "race", NCPU: 8, Shard: 0, NShards: 24, Params: map[string]string{"sched": "1", "race": "1"}})
 			}
-			return out
+			return plus386(out, 2)
 		},
 		Run: runC09,
 	})
